@@ -165,6 +165,8 @@ class NPProxy(object):
     def __init__(self, real=np):
         self._r = real
         self.linalg = _SubProxy(real.linalg, {'norm': self._linalg_norm})
+        from .fftmodel import NumpyFFT
+        self.fft = NumpyFFT(real.fft)
 
     def __getattr__(self, n):
         f = getattr(self._r, n)
@@ -790,6 +792,9 @@ def install(extra=(), exclude=()):
             d['get_blas_funcs'] = get_blas_funcs
         if d.get('numpy') is np and (name not in NOPROXY or name in extra):
             d['numpy'] = PROXY
+        if 'pyfftw' in d and isinstance(d['pyfftw'], types.ModuleType) and d['pyfftw'].__name__ == 'pyfftw':
+            from .fftmodel import FakePyFFTW
+            d['pyfftw'] = FakePyFFTW(d['pyfftw'])
     _patch_element_dtype()
     _patch_formatting()
     _patch_special()
